@@ -477,6 +477,33 @@ func runC02(p *core.Prog, r *core.Report) {
 			r.Check(ok2, "C02-R3", construct, p.Pos(in.Pos()), detail, detail)
 		})
 	}
+	// the threshold the gate compares with is the one the caller asked for: the level field of Options is assigned the
+	// constructor's parameter itself (a clamp into the named levels turns "above Fatal = off" into Fatal)
+	if opts := p.Named("logger", "Options"); opts != nil {
+		for _, f := range structFields(opts) {
+			if !strings.HasSuffix(f.Type().String(), "log/slog.Level") {
+				continue
+			}
+			n := 0
+			var bad []string
+			for _, ref := range sx.FieldRefs(p.PkgFuncs("logger"), f) {
+				fa, ok := ref.Instr.(*ssa.FieldAddr)
+				if !ok {
+					continue
+				}
+				for _, a := range sx.Accesses(fa) {
+					if a.Kind != "write" {
+						continue
+					}
+					n++
+					if _, isParam := sx.Unspill(a.Val).(*ssa.Parameter); !isParam {
+						bad = append(bad, "Options."+f.Name()+" is assigned "+short(sx.ValPath(a.Val))+" in "+fnName(ref.Fn)+" at "+p.Pos(a.Instr.Pos()))
+					}
+				}
+			}
+			r.Check(len(bad) == 0 && n > 0, "C02-R3", "the threshold is the level the constructor was given", "-", fmt.Sprintf("%d assignment(s) of Options.%s, each the parameter itself", n, f.Name()), strings.Join(bad, "; ")+": records are gated against a level the caller did not ask for")
+		}
+	}
 }
 
 func hasSuffixField(path, field string) bool {
